@@ -380,12 +380,44 @@ func (g *gen) genPkg(pkg *Pkg, earlier []*Pkg) {
 			}
 		}
 		fd := g.genFunc(pkg, nil, name, types, earlier)
+		// generic declarations are outside the documented support of the annotations:
+		// only unannotated functions are made generic (calls of them must stay silent)
+		fd.Generic = !fd.TestOnly && fd.PackageOnly == nil && g.chance("genericFunc", 12)
 		funcs = append(funcs, fd)
 		decls = g.add(decls, fd)
 	}
 	// ---- functions reaching an imported type only through a same-package helper
 	// (the using file needs no import) and functions whose parameter is spelled
 	// like the package qualifier
+	// a function whose signature uses struct types inside composite types:
+	// (a []T, b map[string]*U, c ...T) chan U
+	if g.chance("compositeSignature", 20) {
+		var st []*TypeDecl
+		for _, v := range visibleTypes(types, earlier) {
+			if v.Kind == KStruct {
+				st = append(st, v)
+			}
+		}
+		if len(st) > 0 {
+			w := &FuncDecl{ID: g.p.NewID(), Name: fmt.Sprintf("Sig%d", len(decls)), Pkg: pkg, done: true}
+			np := rapid.IntRange(1, 3).Draw(t, "nSigParams")
+			for i := 0; i < np; i++ {
+				g.vseq++
+				wi := g.pick("sigWrap", 3)
+				if i == np-1 && g.chance("variadic", 40) {
+					wi = 4
+				}
+				w.Params = append(w.Params, &Var{Name: fmt.Sprintf("p%d", g.vseq), ID: g.p.NewID(),
+					Ref: &TypeRef{Type: st[g.pick("sigType", len(st))], Ptr: g.chance("sigPtr", 40), Wrap: wraps[wi]}})
+			}
+			if g.chance("sigResult", 60) {
+				w.Results = []*TypeRef{{Type: st[g.pick("sigResType", len(st))], Ptr: g.chance("sigPtr", 40), Wrap: wraps[g.pick("sigResWrap", 3)]}}
+				w.ResultIDs = []int{g.p.NewID()}
+				w.RetExpr = "nil"
+			}
+			decls = g.add(decls, w)
+		}
+	}
 	// an exported helper handing out a type of an earlier package (later packages
 	// can reach that type without importing its package)
 	if len(earlier) > 0 && g.chance("exportHelper", 40) {
@@ -616,6 +648,12 @@ func (g *gen) genFields(td *TypeDecl, own []*TypeDecl, earlier []*Pkg) {
 		ptr := g.chance("inPtr", 40)
 		add(&Field{Name: "In", Type: o, Ptr: ptr, Ref: &TypeRef{Type: o, Ptr: ptr}})
 	}
+	// a field whose type is built from another struct type: []T, [2]T, map[string]*T, chan T
+	if len(cands) > 0 && g.chance("fieldComposite", 15) {
+		o := cands[g.pick("wType", len(cands))]
+		ptr := g.chance("wPtr", 40)
+		add(&Field{Name: "W", Type: o, Ptr: ptr, Ref: &TypeRef{Type: o, Ptr: ptr, Wrap: wraps[g.pick("wWrap", 4)]}})
+	}
 	if len(cands) > 0 && g.chance("fieldEmbedded", 15) {
 		o := cands[g.pick("embType", len(cands))]
 		ptr := g.chance("embPtr", 30)
@@ -630,6 +668,10 @@ func (g *gen) genFields(td *TypeDecl, own []*TypeDecl, earlier []*Pkg) {
 		}
 	}
 }
+
+// wraps: composite types built from a type mention (the first four fit fields and
+// variables; parameters and results avoid the array, whose zero value is an instance)
+var wraps = []string{"[]", "map[string]", "chan ", "[2]", "..."}
 
 func (g *gen) annotate(td *TypeDecl) {
 	if g.chance("plainType", 12) {
@@ -783,6 +825,10 @@ func (g *gen) immSite(sc *scope, td *TypeDecl, o *Var) *Site {
 		s.Kind = "read.index"
 	default:
 		s.Kind = "imm.assign"
+	}
+	switch s.Kind {
+	case "imm.assign", "imm.compound", "imm.incdec", "imm.index":
+		s.ParenTarget = g.chance("parenTarget", 8)
 	}
 	return s
 }
@@ -941,10 +987,10 @@ func (g *gen) immFamily(sc *scope, td *TypeDecl, vis []*TypeDecl) Stmt {
 	if sc.recv != nil && sc.recv.IsPtr() && g.chance("recvForm", 30) {
 		rt := sc.recv.Ref.Type
 		if rt.Kind == KInt && g.chance("recvIncDec", 50) {
-			return &Site{ID: g.p.NewID(), Kind: "imm.recvincdec", Type: rt, Opnd: sc.recv, Aux: []string{"++", "--"}[g.pick("incdec", 2)]}
+			return &Site{ID: g.p.NewID(), Kind: "imm.recvincdec", Type: rt, Opnd: sc.recv, Aux: []string{"++", "--"}[g.pick("incdec", 2)], ParenTarget: g.chance("parenTarget", 8)}
 		}
 		if rt.Kind == KInt || rt.Kind == KStruct {
-			return &Site{ID: g.p.NewID(), Kind: "imm.recvassign", Type: rt, Ref: &TypeRef{Type: rt}, Opnd: sc.recv}
+			return &Site{ID: g.p.NewID(), Kind: "imm.recvassign", Type: rt, Ref: &TypeRef{Type: rt}, Opnd: sc.recv, ParenTarget: g.chance("parenTarget", 8)}
 		}
 	}
 	if td.Kind != KStruct {
@@ -959,6 +1005,45 @@ func (g *gen) immFamily(sc *scope, td *TypeDecl, vis []*TypeDecl) Stmt {
 			return nil
 		}
 		td = st[g.pick("structType", len(st))]
+	}
+	// promoted: the operand is a wrapper that embeds a struct; the written field
+	// is one the wrapper does not declare itself (w.f selects the embedded value's f)
+	if g.chance("promotedField", 12) {
+		for _, w := range vis {
+			if w.Kind != KStruct || w.Immutable {
+				continue
+			}
+			for _, ef := range w.Fields {
+				if !ef.Embedded || ef.Type == nil || ef.Type.Kind != KStruct {
+					continue
+				}
+				own := map[string]bool{}
+				for _, wf := range w.Fields {
+					own[wf.Name] = true
+				}
+				var promoted []*Field
+				for _, bf := range ef.Type.Fields {
+					if bf.Type == nil && !own[bf.Name] {
+						promoted = append(promoted, bf)
+					}
+				}
+				if len(promoted) == 0 {
+					continue
+				}
+				f := promoted[g.pick("promotedF", len(promoted))]
+				o := sc.operand(w, g.chance("optr", 60), false)
+				s := &Site{ID: g.p.NewID(), Type: ef.Type, Field: f, Opnd: o, Kind: "imm.assign"}
+				switch k := g.pick("promotedKind", 10); {
+				case k < 3 && f.Basic == "int":
+					s.Kind, s.Aux = "imm.incdec", "++"
+				case k < 5 && f.Basic == "int":
+					s.Kind, s.Aux = "imm.compound", "+="
+				case k < 8 && f.Basic != "int":
+					s.Kind = "imm.index"
+				}
+				return s
+			}
+		}
 	}
 	// nested: operand is a wrapper whose field In has type td
 	if g.chance("nested", 15) {
@@ -1003,6 +1088,23 @@ func (g *gen) ctorFamily(sc *scope, td *TypeDecl) Stmt {
 			return &Site{ID: g.p.NewID(), Kind: "lit.nested", Type: td, Ref: &TypeRef{Type: td}, Field: in}
 		}
 	}
+	// decoy: a local function named new shadows the builtin; calling it with a
+	// value of the annotated type allocates nothing
+	if td.Kind == KStruct && sc != nil && g.chance("shadowedNew", 5) {
+		o := sc.operand(td, g.chance("optr", 50), false)
+		return &Wrap{Kind: WBlock, Body: []Stmt{
+			&Filler{Text: "new := func(v interface{}) int { return 0 }"},
+			&Site{ID: g.p.NewID(), Kind: "decoynew", Opnd: o},
+		}}
+	}
+	// declarations and empty literals of composite types built from td
+	if td.Kind == KStruct && g.chance("compositeUse", 10) {
+		ref := &TypeRef{Type: td, Ptr: g.chance("cPtr", 40), Wrap: wraps[g.pick("cWrap", 3)]}
+		if ref.Wrap == "chan " || g.chance("cVar", 50) {
+			return &Site{ID: g.p.NewID(), Kind: "var.composite", Type: td, Ref: ref, Local: g.localName()}
+		}
+		return &Site{ID: g.p.NewID(), Kind: "lit.composite", Type: td, Ref: ref}
+	}
 	s := &Site{ID: g.p.NewID(), Type: td, Ref: &TypeRef{Type: td}}
 	k := g.pick("ctorKind", 100)
 	lits := td.Kind != KInt
@@ -1044,6 +1146,9 @@ func (g *gen) ctorFamily(sc *scope, td *TypeDecl) Stmt {
 		}
 	default:
 		s.Kind = "new"
+	}
+	if s.Kind == "new" {
+		s.ParenCallee = g.chance("parenNew", 8) // (new)(T)
 	}
 	if s.Kind == "lit" || s.Kind == "litptr" || s.Kind == "new" {
 		if g.chance("defineForm", 35) {
@@ -1107,7 +1212,7 @@ func (g *gen) callFamily(sc *scope, pkg *Pkg, td *TypeDecl, own []*TypeDecl, ear
 	var fns, ms []*FuncDecl
 	consider := func(fd *FuncDecl) {
 		for _, p := range fd.Params {
-			if p.Ref != nil && !p.Ref.Ptr && p.Ref.Type.Kind == KStruct {
+			if p.Ref != nil && !p.Ref.Ptr && p.Ref.Wrap == "" && p.Ref.Type.Kind == KStruct {
 				return // would need a struct value argument
 			}
 		}
@@ -1199,7 +1304,7 @@ func (g *gen) callFamily(sc *scope, pkg *Pkg, td *TypeDecl, own []*TypeDecl, ear
 		if g.chance("funcvalue", 15) {
 			kind = "funcvalue"
 		}
-		return &Site{ID: g.p.NewID(), Kind: kind, Fn: fd}
+		return &Site{ID: g.p.NewID(), Kind: kind, Fn: fd, Inst: fd.Generic && g.chance("explicitInstance", 50), ParenCallee: kind == "call" && g.chance("parenCallee", 12)}
 	case k < 85 && len(ms) > 0:
 		fd := ms[g.pick("method", len(ms))]
 		fd.called = true
@@ -1211,6 +1316,7 @@ func (g *gen) callFamily(sc *scope, pkg *Pkg, td *TypeDecl, own []*TypeDecl, ear
 		case kk < 60:
 			s.Kind = "mcall"
 			s.Type, s.Ref = nil, nil
+			s.ParenCallee = g.chance("parenCallee", 12)
 		case kk < 72:
 			s.Kind = "mvalue"
 			s.Type, s.Ref = nil, nil
@@ -1230,6 +1336,9 @@ func (g *gen) genPkgVarSite(pkg *Pkg, name string, own []*TypeDecl, earlier []*P
 	td := vis[g.pick("pvType", len(vis))]
 	if td.Elem != nil {
 		return &Site{ID: g.p.NewID(), Kind: "elided.named", Type: td.Elem.Type, Ref: &TypeRef{Type: td}, Local: name, Form: "pkgvar"}
+	}
+	if td.Kind == KStruct && g.chance("pvComposite", 10) {
+		return &Site{ID: g.p.NewID(), Kind: "var.composite", Type: td, Ref: &TypeRef{Type: td, Ptr: g.chance("cPtr", 40), Wrap: wraps[g.pick("cWrap", 4)]}, Local: name, Form: "pkgvar"}
 	}
 	s := &Site{ID: g.p.NewID(), Type: td, Ref: &TypeRef{Type: td}, Local: name, Form: "pkgvar"}
 	k := g.pick("pvKind", 100)
